@@ -3,7 +3,7 @@
 From Coq Require Import String List NArith ZArith Bool.
 From J5V.lib Require Import Outcome Json.
 From J5V.model Require Import CodecTypes CodecDecScalar CodecDec CodecDecQuery.
-From J5V.proofs Require Import CodecDecProofs CodecDecQueryProofs.
+From J5V.proofs Require Import CodecDecProofs CodecDecQueryProofs JsonLexProofs.
 Import ListNotations.
 Local Open Scope N_scope.
 
@@ -46,6 +46,19 @@ Print Assumptions C06_decode_query_total.
 Theorem C06_full : C06_full_statement.
 Proof. exact (conj decode_bytes_total decode_query_total). Qed.
 Print Assumptions C06_full.
+
+(* the bound in bytes: a document of n bytes has at most n tokens, the tokenizer model's own fuel of
+   n + 1 iterations is never what stops it, and the decoder never exhausts a fuel of n + 1 *)
+Theorem C06_fuel_in_bytes : forall orc e root bs,
+  (length (fst (lex bs)) <= length bs)%nat /\
+  is_panic (decode_tokens orc e (snd (lex bs)) (S (length bs)) root (fst (lex bs))) = false /\
+  decode_tokens orc e (snd (lex bs)) (S (length bs)) root (fst (lex bs)) <> OutOfFuel.
+Proof. exact decode_fuel_in_bytes. Qed.
+Print Assumptions C06_fuel_in_bytes.
+
+Theorem C06_lexer_fuel_never_exhausted : forall bs k, lex_go (S (length bs) + k) StTop [] bs = lex bs.
+Proof. exact lex_fuel_stable. Qed.
+Print Assumptions C06_lexer_fuel_never_exhausted.
 
 (* the nesting of property values, hence the recursion depth of the decoder, is bounded by a
    constant whatever the input *)
